@@ -277,7 +277,8 @@ def run(ck):
         for (mode, ov, cd, opts), tz in variants:
             for imm in (True, False, None):
                 for mut in (True, False, None):
-                    if tz is not None and (imm, mut) not in ((None, None), (True, False), (False, True)):
+                    if (tz is not None or ov is not None) and \
+                            (imm, mut) not in ((None, None), (True, False), (False, True)):
                         continue
                     o = [("expire.enabled", "true")] + opts
                     if imm is not None:
@@ -340,8 +341,8 @@ def run(ck):
                                      "bucket-with-two-shares") or (i % 4 == ci % 4 and not s.in_damaged_bucket)]
                 shares = keep
             if (not cfg["enabled"] or not cfg["sharetypes"]) and ck.tier == "quick":
-                # nothing may ever be deleted here whatever the leases: a third of the population is enough
-                keep = [s for i, s in enumerate(shares) if (i % 3 == ci % 3 and not s.in_damaged_bucket)
+                # nothing may ever be deleted here whatever the leases: a quarter of the population is enough
+                keep = [s for i, s in enumerate(shares) if (i % 4 == ci % 4 and not s.in_damaged_bucket)
                         or s.tag == "bucket-with-two-shares" or (s.in_damaged_bucket and ci % 4 == 0)]
                 shares = keep
             # ---- chronological lease plan on the virtual clock
@@ -615,3 +616,4 @@ def run(ck):
 #  c26-override-ignored                           -> deleted-with-unexpired-lease, expired-share-kept     CAUGHT
 #  seeded/C26-2 (corrupt-share try/except around the whole per-share loop)  -> expired-share-kept (healthy share listed after a damaged one)  CAUGHT
 #  seeded/C26-6 (client.py: single share type passed as a str, substring test)    -> deleted-although-sharetype-not-enabled (server built from tahoe.cfg)  CAUGHT
+#  seeded/C26-7 (parse_date yields LOCAL midnight)   -> deleted-with-unexpired-lease (TZ=EST5) / expired-share-kept (TZ=MSK-3), tahoe.cfg cutoff-date family  CAUGHT
